@@ -388,7 +388,7 @@ ssize_t __wrap_read(int fd, void *buf, size_t n)
 static const int LENS[] = { 0, 1, 2, 4095, 4096, 4097, 8191, 8192, 8193, 10000, 12300 };
 #define NLENS ((int) (sizeof LENS / sizeof *LENS))
 enum { SRC_FP_MEM, SRC_FP_FILE, SRC_FP_FILE_MID, SRC_FP_PIPE, SRC_FD_PIPE, SRC_FD_SOCK, SRC_FD_FILE, SRC_FD_FILE_MID, NSRC };
-static const char *SRCN[NSRC] = { "new_from_fp(fmemopen)", "new_from_fp(regular file)", "new_from_fp(regular file, offset len/2)", "new_from_fp(pipe)",
+static const char *SRCN[NSRC] = { "new_from_fp(fmemopen)", "new_from_fp(regular file)", "new_from_fp(regular file, first half skipped by fseek / consumed by fread)", "new_from_fp(pipe)",
                                   "new_from_fd(pipe)", "new_from_fd(unix socket)", "new_from_fd(regular file)", "new_from_fd(regular file, offset len/2)" };
 typedef struct { int src, len; } sc_t;
 static void sc_decode(uint64_t idx, sc_t *c) { c->src = (int) (idx % NSRC); c->len = LENS[(idx / NSRC) % NLENS]; }
@@ -420,7 +420,9 @@ static void sc_run(void *ctx)
     case SRC_FP_FILE: case SRC_FP_FILE_MID:
         fds[0] = tmpfile_with(g_payload, c->len); if (fds[0] < 0) return;
         fp = fdopen(fds[0], "r");
-        if (c->src == SRC_FP_FILE_MID) { off = c->len / 2; fseek(fp, off, SEEK_SET); }
+        if (c->src == SRC_FP_FILE_MID) { off = c->len / 2;           /* the first half is skipped with fseek (even lengths) or consumed through stdio, which reads ahead (odd lengths) */
+            if (c->len % 2) { char *skip = malloc((size_t) off + 1); if (off && fread(skip, 1, (size_t) off, fp) != (size_t) off) { free(skip); fclose(fp); return; } free(skip); }
+            else fseek(fp, off, SEEK_SET); }
         break;
     case SRC_FP_PIPE: case SRC_FD_PIPE:
         if (pipe(fds)) return;
